@@ -293,6 +293,19 @@ def infer_printed_type(t):
                         to_replaceT = t.var_T
                 find_to_replace(t.body)
             elif t.is_comb():
+                # A non-empty list or set literal is printed as its elements only:
+                # neither cons / insert nor the final nil / empty_set is shown.
+                from data import list as hol_list
+                from data import set as hol_set
+                if hol_list.is_literal_list(t):
+                    for item in hol_list.dest_literal_list(t):
+                        find_to_replace(item)
+                    return
+                if hol_set.is_literal_set(t):
+                    for item in hol_set.dest_literal_set(t):
+                        find_to_replace(item)
+                    return
+
                 # The head of a prefix / infix operator application is printed
                 # as a symbol, which cannot carry a type annotation: the
                 # annotation has to go to one of the arguments.
